@@ -47,7 +47,7 @@ type TLCResult struct {
 
 var reStats = regexp.MustCompile(`^(\d+) states generated, (\d+) distinct states found`)
 var reSimStats = regexp.MustCompile(`^The number of states generated: (\d+)`)
-var reInv = regexp.MustCompile(`^Error: (Invariant|Action property|Temporal properties|Postcondition) ?(\S*)`)
+var reInv = regexp.MustCompile(`^Error: (Invariant|Action property|Temporal properties|Temporal property|Postcondition) ?(\S*)`)
 
 // RunTLC runs TLC in a scratch copy of /verif/spec and streams every `"CASE {json}"` line to onCase.
 func RunTLC(o TLCOpts, onCase func(json.RawMessage)) (*TLCResult, error) {
